@@ -65,8 +65,18 @@ def gen(rng, tier):
             pre_w = ["newini 9"] + ["set 9 string %s %s %s 0" % (vlib.enc(b"old section %d" % j), vlib.enc(b"old-key-%d" % j), vlib.enc(b"old value " * 8))
                                      for j in range(rng.randrange(1, 6))] + ["write 9"]
         if rng.random() < 0.4: pre_w = pre_w + ["write 0"]        # the object has been written before: the second file must be as good as the first
-        s = Scenario(cmds + pre_w + ["dump 0", "getall 0", "reread 1 0", "getall 1", "ext 1 - x6b31"],
-                     [False] * (len(cmds) + len(pre_w)) + [False, True, True, True, False], tags=("writable" if w.startswith("writable=1") else "other",))
+        tail, tobs = [], []
+        if rng.random() < 0.15:
+            # econf_writeFile into directories of a tree: existing, missing, a regular file, a name taken by a directory;
+            # the written file is then read back from the tree
+            E = vlib.enc
+            tail = ["fsdir %s 0 0" % E(b"/wd"), "fsdir %s 0 0" % E(b"/wd/sub"), "fsfile %s %s 0 0" % (E(b"/wd/plain"), E(b"x=1\n")),
+                    "writeto 0 %s %s" % (E(b"/wd"), E(b"out.conf")), "readfile 5 %s %s %s" % (E(b"/wd/out.conf"), E(bytes([d])), E(bytes([c]))), "getall 5",
+                    "writeto 0 %s %s" % (E(b"/missing"), E(b"x.conf")), "writeto 0 %s %s" % (E(b"/wd/plain"), E(b"x.conf")),
+                    "writeto 0 %s %s" % (E(b"/wd"), E(b"sub")), "writeto 0 %s %s" % (E(b"/wd/"), E(b"plain")), "readfile 6 %s x3d x23" % E(b"/wd/plain")]
+            tobs = [False, False, False] + [True] * 8
+        s = Scenario(cmds + pre_w + ["dump 0", "getall 0", "reread 1 0", "getall 1", "ext 1 - x6b31"] + tail,
+                     [False] * (len(cmds) + len(pre_w)) + [False, True, True, True, False] + tobs, tags=("writable" if w.startswith("writable=1") else "other",))
         s.wspec = w
         out.append(s)
     return out
@@ -76,7 +86,7 @@ def oracle(s, ilines):
     if not w.startswith("writable=1"): return None
     if w != "writable=1 render=1 wf=1 roundtrip=1":
         return "the model contradicts theorem C07_roundtrip: " + w
-    n = len(s.cmds)
+    n = len(s.cmds) - (11 if s.cmds[-1].startswith("readfile 6") else 0)
     ga0, rr, ga1 = ilines[n - 4], ilines[n - 3], ilines[n - 2]
     if rr != "rc=0": return "written file of a writable object is refused on re-reading: " + rr
     a, b = sections_of(ga0), sections_of(ga1)
